@@ -309,3 +309,84 @@ fn c16_open_io() {
         }
     }
 }
+
+/// Source that serves every read in short pieces (symbolic 1..=8 bytes per call) and may report Interrupted (<= 2 times).
+pub(crate) struct ShortSrc<'a> {
+    pub data: &'a [u8],
+    pub pos: u64,
+    pub interrupts: u32,
+}
+impl<'a> Read for ShortSrc<'a> {
+    fn read(&mut self, buf: &mut [u8]) -> io::Result<usize> {
+        if self.interrupts > 0 && kani::any() {
+            self.interrupts -= 1;
+            return Err(io::Error::from(io::ErrorKind::Interrupted));
+        }
+        let len = self.data.len() as u64;
+        let start = if self.pos > len { len } else { self.pos };
+        let avail = (len - start) as usize;
+        let chop: usize = kani::any();
+        kani::assume(chop >= 1 && chop <= 8);
+        let mut n = if buf.len() < avail { buf.len() } else { avail };
+        if chop < n {
+            n = chop;
+        }
+        let mut i = 0;
+        while i < 8 {
+            if i < n {
+                buf[i] = self.data[start as usize + i];
+            }
+            i += 1;
+        }
+        self.pos = start + n as u64;
+        Ok(n)
+    }
+}
+impl<'a> Seek for ShortSrc<'a> {
+    fn seek(&mut self, to: SeekFrom) -> io::Result<u64> {
+        let len = self.data.len() as i128;
+        let target: i128 = match to {
+            SeekFrom::Start(p) => p as i128,
+            SeekFrom::End(d) => len + d as i128,
+            SeekFrom::Current(d) => self.pos as i128 + d as i128,
+        };
+        if target < 0 {
+            return Err(io::Error::from(io::ErrorKind::InvalidInput));
+        }
+        self.pos = target as u64;
+        Ok(self.pos)
+    }
+}
+
+/// C11 (read side, trailer) / C10: opening over a source that serves reads in arbitrarily short pieces (and interrupts)
+/// gives exactly the fields a whole-buffer source gives, for V1 and V2 trailers.
+#[kani::proof]
+#[kani::unwind(10)]
+fn c11_trailer_short_reads() {
+    let bytes: [u8; 24] = kani::any();
+    let len: usize = kani::any();
+    kani::assume(len >= 21 && len <= 24);
+    let mut wide = [0u8; N];
+    wide[..24].copy_from_slice(&bytes);
+    let spec = spec_trailer(&wide, len);
+    kani::assume(spec.is_some());
+    let src = ShortSrc { data: &bytes[..len], pos: 0, interrupts: 2 };
+    match Reader::new(src) {
+        Ok(reader) => {
+            if let Some((version, offset, codec, count, levels)) = spec {
+                assert!(reader.file_version() == version, "C10/C11: version changes with the read schedule");
+                assert!(reader.index_block_offset() == offset, "C10/C11: root offset changes with the read schedule");
+                assert!(reader.compression_type() as u8 == codec, "C10/C11: codec changes with the read schedule");
+                assert!(reader.len() == count, "C10/C11: entry count changes with the read schedule");
+                assert!(reader.index_levels() == levels);
+                kani::cover!(version == FileVersion::FormatV1 && count != 0 && codec != 0);
+                kani::cover!(version == FileVersion::FormatV2);
+            }
+            mem::forget(reader);
+        }
+        Err(e) => {
+            mem::forget(e);
+            panic!("C11: a valid trailer was rejected because reads were short or interrupted");
+        }
+    }
+}
